@@ -318,6 +318,7 @@ def handleC18 (op : String) (j : Json) : R Json := do
       | none => Json.null
       | some env => obj (data.map (·.1) ++ dflt.map (·.1) ++ ["rp"] |>.eraseDups |>.map fun k => (k, match env k with | some v => jInt v | none => Json.null))
     pure <| obj [("fixed", show_ (getConstantsRp mid dflt (data.length + 1) data)),
+                 ("f25", show_ (getConstantsF25 mid dflt (data.length + 1) data)),
                  ("old", show_ (getConstantsOld mid dflt (data.length + 1) data))]
   | _ => throw s!"unknown op {op}"
 
